@@ -314,7 +314,8 @@ def bool_(ctx, prog, F, b):
 
 
 def wholes(ctx, prog, F):
-    news = {b.key for b in parser_methods(prog) if b.key.split("::")[-1] in ("new", "is_empty")}
+    # (the accessors through which the wrapper may ask "is anything left": each is decided by C13's ACC rules / is one line over the fields)
+    news = {b.key for b in parser_methods(prog) if b.key.split("::")[-1] in ("new", "is_empty", "len", "remainder") and not b.loops()}
     for ty in TYPES + ["bool"]:
         b = ctx.anchor(prog, "konst::primitive::parse::parse_" + ty)
         if b is None:
